@@ -157,3 +157,11 @@ Proof.
     destruct (le_n QOps p (n_zero QOps)); [eauto|].
     destruct (bsearch_ok (d_sf d) p) as [x Hx]. rewrite Hx. cbn [rbind]. eauto.
 Qed.
+
+(* Distribution<f32>::sample is score of the drawn p: total, and inside [unscale(max), unscale(min)]-indices
+   of the table like every score (the draw itself, rand's Uniform, is an input of the model) *)
+Theorem sample_Q_total : forall (d : dist Q) p, d_sf d <> [] ->
+  exists s, d_sample QOps d p = Ok s /\ d_score QOps d p = Ok s.
+Proof.
+  intros d p Hne. destruct (methods_Q_total d 0 p Hne) as [_ [s Hs]]. exists s. split; exact Hs.
+Qed.
